@@ -323,6 +323,8 @@ class Engine:
             for b in u.bodies:
                 self._bodies.setdefault(b.npath, b)
                 self._bodies.setdefault(b.path, b)
+                if b.dpath:
+                    self._bodies.setdefault("dpath:" + b.dpath, b)
 
     # ---- helpers ---------------------------------------------------------------------------
     def variant_name(self, adt, discr):
@@ -826,6 +828,16 @@ class Engine:
             u = fr.mir.unit
             name = u.qualify(strip_generics(c["path"]), c.get("krate"))
             rname = u.qualify(strip_generics(c["resolved"]), c.get("resolved_krate")) if c.get("resolved") else name
+        if "indirect" not in c:
+            # canonicalise re-exported paths of workspace functions to the name of the analysed body
+            for dk in (c.get("resolved_dpath"), c.get("dpath")):
+                b_ = self._bodies.get("dpath:" + dk) if dk else None
+                if b_ is not None and b_.kind != "Closure":
+                    if dk == c.get("resolved_dpath") or not c.get("resolved"):
+                        rname = b_.npath
+                    if dk == c.get("dpath"):
+                        name = b_.npath if not c.get("trait") else name
+                    break
         return self.do_call(st, fr, t, name, rname, args, dest, t.get("target"))
 
     def do_call(self, st, fr, t, name, rname, args, dest, target):
